@@ -105,6 +105,13 @@ func DrawSXG(c *core.Ctx, label string, uniq int) *LSXG {
 			l.RespHeaders = append(l.RespHeaders, HV{l.RespHeaders[len(l.RespHeaders)-1].Name, visible(c, label+".hval2", 1, 8)})
 		}
 	}
+	if c.Chance(label+".manyHeaders", 1, 25) {
+		// the signed header map around the 23/24-entry CBOR head-size step
+		for i, m := 0, c.PickInt(label+".manyN", 18, 19, 20, 21, 22, 23); i < m; i++ {
+			l.RespHeaders = append(l.RespHeaders, HV{fmt.Sprintf("X-M%02d", i), "m"})
+		}
+		c.Probe("signed header map with 23+ fields")
+	}
 	if c.Chance(label+".preEncoded", 1, 8) {
 		// the response was already content-coded before integrity protection is stacked on top
 		l.RespHeaders = append(l.RespHeaders, HV{"Content-Encoding", c.PickStr(label+".coding", "gzip", "br", "identity")})
